@@ -173,7 +173,7 @@ def c09(tier, seed, work):
         mc = [("MCConsole", "MC_Console_sess_quick.cfg"), ("MCConsole", "MC_Console_nosess_quick.cfg")]
     else:
         fams = [dict(name="c09-sess", insess=True, cmds="CmdsAB", maxcalls=2, maxatt=3, kinds="KindsRetry", auth=a, integ=i),
-                dict(name="c09-desync", insess=True, cmds="CmdsABR", maxcalls=2, maxatt=3, kinds="KindsDesync", auth=a2, integ=i2, codes="CodesOkBusy"),
+                dict(name="c09-desync", insess=True, cmds="CmdsAB", maxcalls=2, maxatt=3, kinds="KindsDesync", auth=a2, integ=i2, codes="CodesOkBusy"),
                 dict(name="c09-sess2", insess=True, cmds="CmdsAR", maxcalls=3, maxatt=2, kinds="KindsRetry", auth=a2, integ=i2),
                 dict(name="c09-refused", insess=True, cmds="CmdsABX", maxcalls=3, maxatt=2, kinds="KindsRetry", auth=a, integ=i),
                 dict(name="c09-nosess", insess=False, cmds="CmdsAB", maxcalls=2, maxatt=3, kinds="KindsRetryNS", auth=1, integ=1)]
